@@ -1,6 +1,7 @@
 package main
 
 import (
+	"reflect"
 	"fmt"
 	"go/token"
 	"regexp"
@@ -403,4 +404,33 @@ func (P *Program) globalStringLists() map[string][]string {
 		})
 	}
 	return stringListCache
+}
+
+// notDecodableRule: each tabled field carries verifier-derived state; it must not be settable by decoding a
+// message: either unexported, or tagged json:"-" (the cbor codec used here honours json tags) and not tagged for cbor.
+func notDecodableRule(P *Program, R *Report, rule string, fields [][2]string) {
+	for _, tf := range fields {
+		st := structOf(P, tf[0])
+		c := tf[0] + "." + tf[1] + ":not-decodable"
+		if st == nil {
+			R.und(rule, c, "type found", "", "")
+			continue
+		}
+		found := false
+		for i := 0; i < st.NumFields(); i++ {
+			f := st.Field(i)
+			if f.Name() != tf[1] {
+				continue
+			}
+			found = true
+			tag := reflect.StructTag(st.Tag(i))
+			j, hasJ := tag.Lookup("json")
+			cb, hasC := tag.Lookup("cbor")
+			ok := !f.Exported() || (hasJ && strings.Split(j, ",")[0] == "-" && (!hasC || strings.Split(cb, ",")[0] == "-"))
+			R.decide(rule, c, "the field holds state derived by the verifier and cannot be supplied in a decoded message (unexported or json:\"-\")", ok, "tag: `"+st.Tag(i)+"`", "")
+		}
+		if !found {
+			R.und(rule, c, "field found", "", "")
+		}
+	}
 }
